@@ -67,7 +67,7 @@ pub fn run(thorough: bool, mut rng: Rng, mut out: Out) {
             alloc_case(&mut out, l, s, "grid");
         }
     }
-    let nrand = if thorough { 20000 } else { 1500 };
+    let nrand = if thorough { 100000 } else { 1500 };
     for _ in 0..nrand {
         let last = match rng.below(4) { 0 => N - rng.below(5) as i32, 1 => rng.range(1, 50) as i32, 2 => N, _ => rng.range(1, N as u64) as i32 };
         let mut s: Vec<i32> = vec![];
@@ -90,7 +90,7 @@ pub fn run(thorough: bool, mut rng: Rng, mut out: Out) {
     // (ii) histories: cloned handles on a multi-thread runtime issue bursts while the server answers
     // in random order; server-side oracle: an arriving ID is within 1..N and differs from every
     // request it has not answered yet
-    let nhist = if thorough { 300 } else { 25 };
+    let nhist = if thorough { 600 } else { 25 };
     for h in 0..nhist {
         let handles = rng.range(1, 6) as usize;
         let per = rng.range(2, 12) as usize;
@@ -111,7 +111,7 @@ pub fn run(thorough: bool, mut rng: Rng, mut out: Out) {
     // searches whose streams are open (started, one entry received, no Done) and single operations
     // nobody has answered; the table is the library's own (read back through the hook, only the
     // counter position is moved to N-r).  Same server-side oracle.
-    let nlive = if thorough { 120 } else { 16 };
+    let nlive = if thorough { 400 } else { 16 };
     for h in 0..nlive {
         let searches = rng.range(1, 4) as usize;
         let singles = rng.below(3) as usize;
